@@ -213,13 +213,13 @@ def pulse(*args):
         first = ' self.starttime '
 
     if interval == None:
-        return '('+str(volume) + ' /self.dt if ' + str(first) + ' <= t else 0)'
+        return '(('+str(volume) + ') /self.dt if (' + str(first) + ') <= t else 0)'
 
     if int(interval) == 0:
-        return '('+ str(volume) + ' /self.dt if ' + str(first) + ' == t else 0)'
+        return '(('+ str(volume) + ') /self.dt if (' + str(first) + ') == t else 0)'
 
-    return '('+str(volume) + '/ self.dt if ' + str(first) + ' <= t and ((t -' + str(first) + ') % ' + str(
-        interval) + ') == 0 else 0)'
+    return '(('+str(volume) + ')/ self.dt if (' + str(first) + ') <= t and ((t -(' + str(first) + ')) % (' + str(
+        interval) + ')) == 0 else 0)'
 
 
 def derivn_(*args):
@@ -626,10 +626,10 @@ def safediv_(*args):
     onzero = None if len(args) ==2 else parseExpression(args[2])
 
     if onzero is not None:
-        return "(( "+ str(onzero) + ")" + ' if (' + str(denominator) + ') == 0 else (' + str(nominator) + ' / ' + str(denominator) + "))"
+        return "(( "+ str(onzero) + ")" + ' if (' + str(denominator) + ') == 0 else ((' + str(nominator) + ') / (' + str(denominator) + ")))"
     else:
-        return "((0)" + ' if (' + str(denominator) + ') == 0 else (' + str(nominator) + ' / ' + str(
-            denominator) + "))"
+        return "((0)" + ' if (' + str(denominator) + ') == 0 else ((' + str(nominator) + ') / (' + str(
+            denominator) + ")))"
 
 def history_(*args):
     args = remove_nesting(args)
@@ -702,7 +702,7 @@ def percent_(*args):
             elem.remove(",")
         except:
             pass
-    return "({}*100)".format(parseExpression(args[0]))
+    return "(({})*100)".format(parseExpression(args[0]))
 
 def counter_(*args):
     args = remove_nesting(args)
@@ -883,15 +883,15 @@ builtins = {
 
     'rootn' : lambda *args: "( self.rootn({}, {}) )".format(parseExpression(remove_nesting(args)[0]) ,parseExpression(remove_nesting(args)[1] )),
 
-    'sqrt': lambda *args: "({} ** 0.5 )".format(parseExpression(remove_nesting(args))),
+    'sqrt': lambda *args: "(({}) ** 0.5 )".format(parseExpression(remove_nesting(args))),
 
     'log10': lambda *args: "(np.log10({}))".format(parseExpression(remove_nesting(args))),
 
     'ln': lambda *args: "(np.log({}))".format(parseExpression(remove_nesting(args))),
 
-    'sinwave' : lambda *args : "( np.sin(2*np.pi / {} * (t-self.starttime) ) * {} )".format(parseExpression(remove_nesting(args)[1]),parseExpression(remove_nesting(args)[0])),
+    'sinwave' : lambda *args : "( np.sin(2*np.pi / ({}) * (t-self.starttime) ) * ({}) )".format(parseExpression(remove_nesting(args)[1]),parseExpression(remove_nesting(args)[0])),
 
-    'coswave': lambda *args: "( np.cos(2*np.pi / {} * (t-self.starttime) ) * {} )".format(
+    'coswave': lambda *args: "( np.cos(2*np.pi / ({}) * (t-self.starttime) ) * ({}) )".format(
         parseExpression(remove_nesting(args)[1]), parseExpression(remove_nesting(args)[0])),
 
     # Logical builtins
